@@ -336,6 +336,49 @@ class Impl:
     def op_is_essential(self, b, u, v):
         return b.is_essential(u, vname(v))
 
+    def op_count(self, b, u, n):
+        return b.count(u, n)
+
+    def op_pick_iter(self, b, u, care):
+        c = None if care is None else {vname(k) for k in care}
+        out = [sorted((vid(k), v) for k, v in d.items()) for d in b.pick_iter(u, c)]
+        out.sort(key=show_value)
+        return out
+
+    def op_pick(self, b, u, care):
+        c = None if care is None else {vname(k) for k in care}
+        d = b.pick(u, c)
+        return None if d is None else sorted((vid(k), v) for k, v in d.items())
+
+    def op_undeclare(self, b, vs):
+        return {vid(x) for x in b.undeclare_vars(*[vname(v) for v in vs])}
+
+    def op_descendants(self, b, roots):
+        return b.descendants(roots)
+
+    def op_succ(self, b, u):
+        i, v, w = b.succ(u)
+        return [i, 0 if v is None else v, 0 if w is None else w]
+
+    def op_level_of_var(self, b, v):
+        return b.level_of_var(vname(v))
+
+    def op_var_at_level(self, b, l):
+        return vid(b.var_at_level(l))
+
+    def op_len(self, b):
+        return len(b)
+
+    def op_contains(self, b, u):
+        return u in b
+
+    def op_shutdown(self, b):
+        try:
+            b.__del__()
+            return True
+        except AssertionError:
+            return False
+
     def run(self, m, name, *args):
         """Run one operation; return (tape, result_text, raw_value)."""
         _Rec.events = []
